@@ -98,3 +98,24 @@ package config
 //@   fresh
 //@   ensures result != nil && result.ScanTests == c.ScanTests && result.ExcludePaths == c.ExcludePaths && result.ExcludeChecks == excludeChecks
 //@   assigns nothing
+
+// flag > environment: the configuration is read from the flags' current texts (flag package: the command-line value
+// if given, else the default - and CreateFlagSet defines the defaults from the environment, FromEnv above).
+// GOGREEMENT_ENV_ONLY (a test switch) bypasses the flags.
+//@ macro func flagTextOf(fs *flag.FlagSet, name string) string = fs.Lookup(name) != nil ? flagText(fs.Lookup(name)) : ""
+//@ func ParseFlagsFromFlagSet
+//@   props C18 C08 C14 C10
+//@   nilable fs
+//@   requires fs != nil && fs.Lookup("scan-tests") != nil ==> flagIsBool(fs.Lookup("scan-tests"))
+//@   fresh
+//@   assigns nothing
+//@   ensures result != nil
+//@   ensures fs == nil ==> !result.ScanTests && len(result.ExcludePaths) == 0 && len(result.ExcludeChecks) == 0
+//@   ensures fs != nil && os.Getenv("GOGREEMENT_ENV_ONLY") == "" ==> result.ScanTests == (fs.Lookup("scan-tests") != nil && flagBool(fs.Lookup("scan-tests")))
+//@   ensures fs != nil && os.Getenv("GOGREEMENT_ENV_ONLY") == "" ==> (forall x string :: contains(result.ExcludePaths, x) <==> listHas(flagTextOf(fs, "exclude-paths"), false, x))
+//@   ensures fs != nil && os.Getenv("GOGREEMENT_ENV_ONLY") == "" ==> (forall x string :: contains(result.ExcludeChecks, x) <==> listHas(flagTextOf(fs, "exclude-checks"), true, x))
+//@   ensures fs != nil && os.Getenv("GOGREEMENT_ENV_ONLY") != "" ==> result.ScanTests == (envSet("GOGREEMENT_SCAN_TESTS") && boolSpelling(envVal("GOGREEMENT_SCAN_TESTS")))
+
+//@ func CreateFlagSet
+//@   props C18 C10
+//@   ensures result != nil
